@@ -707,6 +707,15 @@ def run_named_mps(case):
         if ph**L > 1024:
             ph = 2
         kw = dict(phys_dim=ph, normalize=norm, cyclic=cyc, dtype=dt, dist=case["dist"], seed=case["seed"] % 2**31, trans_invar=ti)
+        raw = vr = magr = None
+        if norm:
+            # the same draw without normalisation, FIRST: rademacher / translation invariant draws can cancel to an exactly
+            # zero state; normalising that is 0/0 (NaN) and outside any contract -> rejected before anything is compared
+            raw = qtn.MPS_rand_state(L, case["bond"], **dict(kw, normalize=False))
+            vr = dense_vec(raw, list(range(L)), which=w)
+            magr = float(np.prod([max(float(np.linalg.norm(np.asarray(t.data).ravel())), 1e-300) for t in raw]))
+            if not np.all(np.isfinite(vr)) or float(np.linalg.norm(vr)) <= 1e-6 * magr:
+                raise Reject("numerically zero random state")
         psi = qtn.MPS_rand_state(L, case["bond"], **kw)
         psi2 = qtn.MPS_rand_state(L, case["bond"], **kw)
         info.update(normalize=str(norm), cyclic=cyc)
@@ -726,11 +735,6 @@ def run_named_mps(case):
         if norm:
             # the same draw without normalisation: must be the same ray; (rademacher / translation invariant draws can
             # cancel to an exactly zero state, which cannot be normalised: rejected)
-            raw = qtn.MPS_rand_state(L, case["bond"], **dict(kw, normalize=False))
-            vr = dense_vec(raw, sites, **info)
-            magr = float(np.prod([max(float(np.linalg.norm(np.asarray(t.data).ravel())), 1e-300) for t in raw]))
-            if float(np.linalg.norm(vr)) <= 1e-6 * magr:
-                raise Reject("numerically zero random state")
             itol = INV32 if single(dt) else INV64
             e = abs(nv - 1.0)
             if not e <= itol:
@@ -857,6 +861,14 @@ def run_named_mpo(case):
             herm = True
             if cyc:
                 kw.update(cyclic=True)
+        Mr = magr = None
+        if case["normalize"]:
+            # un-normalised draw first: an exactly cancelling (zero) operator cannot be normalised (0/0): rejected
+            raw = (qtn.MPO_rand if w == "rand" else qtn.MPO_rand_herm)(L, case["bond"], **dict(kw, normalize=False))
+            Mr = dense_op(raw, sites, **info)
+            magr = float(np.prod([max(float(np.linalg.norm(np.asarray(t.data).ravel())), 1e-300) for t in raw]))
+            if not np.all(np.isfinite(Mr)) or float(np.linalg.norm(Mr)) <= 1e-6 * magr:
+                raise Reject("numerically zero random operator")
         X = qtn.MPO_rand(L, case["bond"], **kw) if w == "rand" else qtn.MPO_rand_herm(L, case["bond"], **kw)
         X2 = qtn.MPO_rand(L, case["bond"], **kw) if w == "rand" else qtn.MPO_rand_herm(L, case["bond"], **kw)
         M = dense_op(X, sites, **info)
@@ -865,11 +877,6 @@ def run_named_mpo(case):
         cls += ["herm" if herm else "nonherm", "normalize" if case["normalize"] else "raw"]
         nf = float(np.linalg.norm(M))
         if case["normalize"]:
-            raw = (qtn.MPO_rand if w == "rand" else qtn.MPO_rand_herm)(L, case["bond"], **dict(kw, normalize=False))
-            Mr = dense_op(raw, sites, **info)
-            magr = float(np.prod([max(float(np.linalg.norm(np.asarray(t.data).ravel())), 1e-300) for t in raw]))
-            if float(np.linalg.norm(Mr)) <= 1e-6 * magr:
-                raise Reject("numerically zero random operator")
             itol = INV32 if single(dt) else INV64
             e = abs(nf - 1.0)
             if not e <= itol:
